@@ -15,6 +15,7 @@ type exprOpts struct {
 	showConv bool // render integer conversions as uN(...)/iN(...)
 	sums     bool // render accumulation phis as Σ(init; term) and loop indices as *
 	depth    int
+	swap     [2]int // when swap[0] != swap[1]: render parameter swap[0] as swap[1] and vice versa (symmetry checks)
 }
 
 // exprStr renders a pure SSA expression as a canonical string that is
@@ -89,6 +90,13 @@ func (r *renderer) render(v ssa.Value, d int) string {
 	case *ssa.Parameter:
 		for i, p := range x.Parent().Params {
 			if p == x {
+				if r.o.swap[0] != r.o.swap[1] {
+					if i == r.o.swap[0] {
+						i = r.o.swap[1]
+					} else if i == r.o.swap[1] {
+						i = r.o.swap[0]
+					}
+				}
 				return fmt.Sprintf("p%d", i)
 			}
 		}
